@@ -66,7 +66,8 @@ func (c *Float) adaptiveEncoding(in []byte, out []byte) ([]byte, error) {
 		return c.compressNull(in, out), nil
 	}
 
-	if ctx.Same() {
+	// the same-value block stores its count in 16 bits; longer blocks take the RLE path (runs are cut at RLEBlockLimit)
+	if ctx.Same() && len(values) <= math.MaxUint16 {
 		out = append(out, floatCompressedSame<<4)
 		return c.rle.SameValueEncoding(in, out)
 	}
